@@ -7,13 +7,16 @@ import families
 # mechanism configurations: (name, cfg, module)
 MQ = "MC_MsgQueue.tla"
 TP = "../mech/TaskPool.tla"
+WC = "MC_WriterChain.tla"
+RC = "MC_ReaderChain.tla"
+TEMPORAL = "Temporal properties were violated"
 
 PROPS = {
     "C07": dict(
         tlc={"quick": [("MsgQueue_quick", "MsgQueue_quick.cfg", MQ)],
              "thorough": [("MsgQueue_mid", "MsgQueue_mid.cfg", MQ), ("MsgQueue_thorough", "MsgQueue_thorough.cfg", MQ)]},
         dev=[("MsgQueue_dev_F2", "MsgQueue_dev_F2.cfg", MQ, "NoLostWakeup")],
-        family="C07", drivers=["d1"],
+        family="C07", drivers=["d1"], mech=("queue", "T_MsgQueue.tla", "T_MsgQueue.cfg"),
         passes={"quick": [("mix", 8, None)], "thorough": [("mix", 60, None), ("delay", 2, 400)]},
         nontrivial=r'"ev":"RecvRet".*"res":"req"',
         rule="scenarios: receiver combinations x request timing (family C07); distinct = distinct observable traces (events incl. virtual time); non-trivial = at least one request was delivered by a receive call",
@@ -22,7 +25,7 @@ PROPS = {
         tlc={"quick": [("MsgQueue_quick", "MsgQueue_quick.cfg", MQ)],
              "thorough": [("MsgQueue_mid", "MsgQueue_mid.cfg", MQ), ("MsgQueue_thorough", "MsgQueue_thorough.cfg", MQ)]},
         dev=[("MsgQueue_dev_F2", "MsgQueue_dev_F2.cfg", MQ, "NoLostWakeup")],
-        family="C17", drivers=["d1"],
+        family="C17", drivers=["d1"], mech=("queue", "T_MsgQueue.tla", "T_MsgQueue.cfg"),
         passes={"quick": [("mix", 8, None)], "thorough": [("mix", 60, None), ("delay", 2, 400)]},
         nontrivial=r'"ev":"Unblock"',
         rule="scenarios: receiver combinations x unblock instants x request instants (family C17); distinct = distinct observable traces; non-trivial = at least one unblock() call before teardown or a timed receive returning",
@@ -31,7 +34,7 @@ PROPS = {
         tlc={"quick": [("TaskPool_quick", "TaskPool_quick.cfg", TP)],
              "thorough": [("TaskPool_quick", "TaskPool_quick.cfg", TP), ("TaskPool_thorough", "TaskPool_thorough.cfg", TP)]},
         dev=[("TaskPool_dev_F3", "TaskPool_dev_F3.cfg", TP, "NoStarve")],
-        family="C08", drivers=["d1"],
+        family="C08", drivers=["d1"], mech=("pool", "T_TaskPool.tla", "T_TaskPool.cfg"),
         passes={"quick": [("mix", 10, None)], "thorough": [("mix", 80, None), ("delay", 2, 300)]},
         nontrivial=r'"ev":"COpen","c":4,',
         rule="scenarios: N simultaneous keep-alive connections, burst / stalled / held / staggered / waves around the idle period (family C08); distinct = distinct observable traces; non-trivial = at least 5 connections open at once (more than the pool minimum)",
@@ -40,33 +43,48 @@ PROPS = {
         tlc={"quick": [("TaskPool_c20_quick", "TaskPool_c20_quick.cfg", TP)],
              "thorough": [("TaskPool_c20_quick", "TaskPool_c20_quick.cfg", TP), ("TaskPool_c20_thorough", "TaskPool_c20_thorough.cfg", TP)]},
         dev=[],
-        family="C20", drivers=["d1"],
+        family="C20", drivers=["d1"], mech=("pool", "T_TaskPool.tla", "T_TaskPool.cfg"),
         passes={"quick": [("mix", 6, None)], "thorough": [("mix", 60, None), ("delay", 1, 100)]},
         nontrivial=r'"ev":"(Probe|ServerDrop)"',
         rule="scenarios: bursts followed by idle periods with thread-count probes; server drop with held requests and later connects (family C20); distinct = distinct observable traces",
     ),
     "C01": dict(
-        tlc={"quick": [], "thorough": []}, dev=[],
+        tlc={"quick": [("WriterChain_quick", "WriterChain_quick.cfg", WC)],
+             "thorough": [("WriterChain_quick", "WriterChain_quick.cfg", WC), ("WriterChain_thorough", "WriterChain_thorough.cfg", WC)]},
+        dev=[("WriterChain_dev_F1", "WriterChain_dev_F1.cfg", WC, "OrderInv"), ("WriterChain_dev_flush", "WriterChain_dev_flush.cfg", WC, "OrderInv")],
         family="C01", drivers=["d1"],
         passes={"quick": [("mix", 12, None), ("delay", 1, 40)], "thorough": [("mix", 100, None), ("delay", 2, 600)]},
         nontrivial=r'"ev":"CFrame".*"k":1,',
         rule="scenarios: 2-3 pipelined requests x answer plans (respond sizes around the 1 KiB buffer / chunked / raw writer parts x flush / unused writer / drop / panic) x {own thread each, one thread in arrival order} (family C01); distinct = distinct observable traces; non-trivial = at least two response frames reached the client",
     ),
     "C06": dict(
-        tlc={"quick": [], "thorough": []}, dev=[],
-        family="C06", drivers=["d1"],
+        tlc={"quick": [("WriterChain_quick", "WriterChain_quick.cfg", WC)],
+             "thorough": [("WriterChain_quick", "WriterChain_quick.cfg", WC), ("WriterChain_thorough", "WriterChain_thorough.cfg", WC)]},
+        dev=[("WriterChain_dev_F5", "WriterChain_dev_F5.cfg", WC, "EveryoneFinishes")],
+        family="C06", drivers=["d1", "d2"], d2={"quick": (60, 1), "thorough": (300, 2)},
         passes={"quick": [("mix", 12, None), ("delay", 1, 40)], "thorough": [("mix", 100, None), ("delay", 2, 600)]},
         nontrivial=r'"how":"(drop|panic)"',
         rule="as C01; non-trivial = the execution contains a dropped or panicking handler",
     ),
 }
 
+D2_PROPS = {"C02", "C03", "C06", "C09", "C10", "C12", "C16", "C18", "C13", "C15"}
+
+RC_FREE = ("ReaderChain_free", "ReaderChain_free.cfg", RC)
+RC_HOLD = ("ReaderChain_hold", "ReaderChain_hold.cfg", RC)
+RC_F4 = ("ReaderChain_dev_F4", "ReaderChain_dev_F4.cfg", RC, "HeadsAtMessageStart")
+MECH = {"C03": ([RC_FREE], []), "C09": ([RC_FREE], [RC_F4]), "C11": ([RC_HOLD, RC_FREE], []), "C18": ([RC_FREE], []),
+        "C10": ([("WriterChain_quick", "WriterChain_quick.cfg", WC)], [("WriterChain_dev_F5", "WriterChain_dev_F5.cfg", WC, "EveryoneFinishes")]),
+        "C13": ([RC_FREE], []), "C15": ([RC_FREE], [])}
+
 def _conn_prop(fam, nontrivial, rule, quick_runs=4, thorough_runs=30):
-    return dict(tlc={"quick": [], "thorough": []}, dev=[], family=fam, drivers=["d1"],
+    return dict(tlc={"quick": MECH.get(fam, ([], []))[0], "thorough": MECH.get(fam, ([], []))[0]}, dev=MECH.get(fam, ([], []))[1], family=fam, drivers=["d1"] + (["d2"] if fam in D2_PROPS else []),
+                d2={"quick": (60, 1), "thorough": (400, 2)} if fam in D2_PROPS else None,
                 passes={"quick": [("mix", quick_runs, None)], "thorough": [("mix", thorough_runs, None), ("delay", 1, 60)]},
                 nontrivial=nontrivial, rule=rule)
 
 PROPS.update({
+    "C02": _conn_prop("C02", r'"ev":"RecvRet".*"res":"req"', "heads: every valid header line over the abstract alphabet of specs/fn/HeadSyntax.tla (names of 1..2 symbols, raw values of 0..3/4 symbols, written by TLC together with their reference parse) concretised with seeded bytes, crossed with methods / targets / versions; 0..64 fields, duplicates, lines beyond the 1 KiB buffer; TCP and UNIX peers on the real-socket path (family C02); distinct = distinct traces", quick_runs=1, thorough_runs=2),
     "C03": _conn_prop("C03", r'"ev":"ReadRet".*"got":[1-9]', "scenarios: framing x length x chunking x header-name case x follower x read-size program (family C03); non-trivial = some body bytes were read"),
     "C09": _conn_prop("C09", r'"ev":"RecvRet".*"m":1,', "scenarios: body framing x consumption prefix x finish x follower (family C09); non-trivial = the follower request was delivered"),
     "C10": _conn_prop("C10", r'"ev":"CFrame".*"st":(400|417|505)|"ev":"CEof"', "scenarios: each malformed / unsupported class at every position of a 1..4 pipeline, neighbours answered fast or slow (family C10)"),
@@ -78,7 +96,13 @@ PROPS.update({
     "C18": _conn_prop("C18", r'"ev":"Ask"', "scenarios: Expect present/absent x length x handler program x withholding client (family C18); non-trivial = the body was asked for"),
 })
 
+PROPS["C14"] = dict(tlc={"quick": [], "thorough": []}, dev=[], family="C14", drivers=["d2"],
+    passes={"quick": [], "thorough": []}, d2={"quick": (100000, 1), "thorough": (100000, 2)}, d2_extra=["--crash-is-data"], d2_keep_transport=True,
+    nontrivial=r'"ev":"Alloc"',
+    rule="adversarial class product: Content-Length classes (0 .. beyond usize::MAX) x bytes actually sent x handler; chunk-size classes; header counts; line lengths up to 8 MiB; NUL/control/non-ASCII bytes at each head position; truncations (family C14). Real sockets, real process, tracking allocator and panic hook; a dying process is data. Class coverage with seeded bytes, NOT byte-level exhaustive")
+
 LEVEL = {p: "model_checking" for p in PROPS}
+LEVEL["C14"] = "exploration"
 
 ASSUMPTIONS = [
     "vrt models the documented std semantics of Mutex/Condvar/mpsc/thread (sequentially consistent; no poisoning)",
@@ -172,6 +196,65 @@ def run_check(prop, tier, seed):
     log("[run] %d executions, %d distinct traces" % (len(order), len(reps)))
     # 4. verdict: TLC trace validation against the judge
     viols, nlines = vlib.validate(ex, reps, os.path.join(wdir, "validate"))
+    # 3a. fidelity of the mechanism specification: the marker events of the same executions must be
+    #     behaviours of the mechanism spec (a measurement, never a verdict: DESIGN.md 2.1)
+    fidelity = None
+    if cfg.get("mech"):
+        import mechtrace
+        kind, mspec, mcfg = cfg["mech"]
+        fn = mechtrace.queue_events if kind == "queue" else mechtrace.pool_events
+        mex = []
+        unmapped = 0
+        for x in reps:
+            evs = fn(ex[x])
+            if evs is None:
+                unmapped += 1
+            else:
+                mex.append((x, evs))
+        acc, div = mechtrace.validate_mech(mspec, mcfg, mex, os.path.join(wdir, "mech"), kind)
+        fidelity = {"mechanism_spec": mspec, "executions": len(mex), "accepted": acc, "divergences": div[:10],
+                    "n_divergences": len(div), "unmappable": unmapped, "marker_events": sum(len(e) for _, e in mex)}
+        log("[mech] %d/%d executions are behaviours of %s (%d marker events, %d divergences)" % (acc, len(mex), mspec, fidelity["marker_events"], len(div)))
+    # 3b. second, hook-free path: the same scenarios over real TCP / UNIX sockets (ordinary build)
+    d2info = None
+    order2, reps2, ex2 = [], [], {}
+    if cfg.get("d2"):
+        nsc, nruns = cfg["d2"][tier]
+        rng = random.Random("%s/d2/%d" % (prop, seed))
+        sub = [dict(s_) for s_ in (scs if len(scs) <= nsc else rng.sample(scs, nsc)) if not s_.get("d1only")]
+        sub = [dict(s_) for s_ in (scs if len(scs) <= nsc else rng.sample(scs, nsc))] if cfg.get("d2_keep_transport") else sub
+        for i, s_ in enumerate(sub):
+            if not cfg.get("d2_keep_transport"):
+                s_["transport"] = "unix" if i % 5 == 4 else "tcp"
+            s_["judge"] = dict(s_["judge"], transport=s_["transport"])
+        f2 = vlib.run_driver(vlib.D2, sub, os.path.join(wdir, "traces_d2"), "d2", ["--runs", str(nruns), "--quiet-ms", "150"] + cfg.get("d2_extra", []), procs=12)
+        ex2, order2 = vlib.load_executions(f2)
+        reps2, _m2 = vlib.dedup(ex2, order2, keep_now=False)
+        v2, n2 = vlib.validate(ex2, reps2, os.path.join(wdir, "validate_d2"))
+        suspects = sorted(set(v["x"].split("#")[0] for v in v2 if v["prop"] == prop))
+        confirmed = []
+        if suspects:
+            # a violation on real threads must survive a re-run with a much longer settle time
+            bys = {s_["id"]: s_ for s_ in sub}
+            f3 = vlib.run_driver(vlib.D2, [bys[x] for x in suspects], os.path.join(wdir, "traces_d2c"), "d2c", ["--runs", "2", "--quiet-ms", "2500"] + cfg.get("d2_extra", []), procs=8)
+            ex3, order3 = vlib.load_executions(f3)
+            v3, n3 = vlib.validate(ex3, order3, os.path.join(wdir, "validate_d2c"))
+            confirmed = [v for v in v3 if v["prop"] == prop]
+            for v in confirmed:
+                v["x"] = v["x"] + "@d2"
+                ex[v["x"]] = ex3[v["x"][:-3]]
+            viols += confirmed
+            files += f3
+        d2info = {"scenarios": len(sub), "executions": len(order2), "distinct_traces": len(reps2), "suspects": len(suspects),
+                  "confirmed_violations": len(confirmed), "trace_lines_validated": n2}
+        log("[d2] %d executions over real sockets, %d suspects, %d confirmed" % (len(order2), len(suspects), len(confirmed)))
+    if d2info is not None:
+        # executions over real sockets count too (for C14 they are the only ones)
+        for x in order2:
+            ex.setdefault(x + "@d2", ex2[x])
+        order = order + [x + "@d2" for x in order2]
+        reps = reps + [x + "@d2" for x in reps2]
+        nlines += d2info["trace_lines_validated"]
     mine = [v for v in viols if v["prop"] == prop]
     others = {}
     for v in viols:
@@ -186,6 +269,8 @@ def run_check(prop, tier, seed):
     for x, vs in byx.items():
         sid = x.split("#")[0]
         sc = by_id.get(sid, {})
+        if x.endswith("@d2"):
+            sc = dict(sc, transport="tcp")
         unknown = []
         for v in vs:
             f = vlib.match_finding(v, sc, findings)
@@ -230,6 +315,8 @@ def run_check(prop, tier, seed):
         "judge": "specs/trace/T_Judge.tla (AbsConn, AbsQueue, AbsPool) evaluated by TLC on every distinct trace",
         "known_findings_seen": {k: v["count"] for k, v in known_seen.items()},
         "seen_for_other_properties": others,
+        "real_socket_path": d2info,
+        "mechanism_fidelity": fidelity,
     }
     if not cfg["tlc"][tier]:
         coverage["explanation"] = "no mechanism configuration for this tier: states/transitions count judge states of the validated traces"
